@@ -695,6 +695,12 @@ func (w *w1World) checkClientLog(cl *w1SimClient) {
 				if f.Kind == "push:pub" && f.Pub != nil && f.Pub.Offset > 0 && strings.Contains(sig, "before the subscription started") && !strings.Contains(sig, "push:sub") {
 					sig += " [publication with offset]"
 				}
+				// server-side subscribe: the recorded window (commit before the subscribe push
+				// is queued) is open for non-positioned subscriptions only; a positioned or
+				// recoverable one keeps PUB/SUB buffered until the push has been written
+				if f.Kind == "push:pub" && f.Pub != nil && f.Pub.Offset > 0 && strings.Contains(sig, "started later by push:sub") && chPositioned(f.Ch) {
+					sig += " [publication with offset on a positioned channel]"
+				}
 				sig += w.rnq()
 				if w.sc.Cfg.Batch && chHas(f.Ch, 'b') {
 					// the recorded batching finding is the race between a publication being
